@@ -220,6 +220,12 @@ def p_x_index(c):
         out += expect_rejected(sut(f.fit, y.copy(), Xbad, c["fh"]), "X_index_differs:fit:%s" % name, f)
     elif variant == "fit_shorter":
         out += expect_rejected(sut(f.fit, y.copy(), X.iloc[:-1].copy(), c["fh"]), "X_shorter_than_y:fit:%s" % name, f)
+    elif variant in ("fit_longer", "fit_leading"):
+        # X covers every time point of y and more (e.g. future rows): still not the same index
+        n_extra = 2
+        start = int(y.index[0]) - (n_extra if variant == "fit_leading" else 0)
+        Xl = pd.DataFrame({"a": np.arange(len(y) + n_extra, dtype=float)}, index=gen.int_index(start, len(y) + n_extra, c["index_kind"]))
+        out += expect_rejected(sut(f.fit, y.copy(), Xl, c["fh"]), "X_index_superset_of_y:fit:%s" % name, f)
     elif variant == "update":
         g = FORECASTERS[name]().fit(y.copy(), X.copy(), c["fh"])
         y_new = gen.build_series([5.0, 6.5, 7.25], int(y.index[-1]) + 1, c["index_kind"])
@@ -483,7 +489,7 @@ def cases(draw, pair):
         c["fault"] = draw(st.sampled_from(["unsorted", "unsorted_middle", "reversed_range", "empty", "dataframe", "ndarray"]))
     elif pair == "x_index":
         c["forecaster"] = draw(st.sampled_from(["naive", "recursive", "direct", "multioutput", "ensemble", "multiplex", "expsmooth"]))
-        c["x_variant"] = draw(st.sampled_from(["fit", "fit", "fit_shorter", "update", "evaluate"]))
+        c["x_variant"] = draw(st.sampled_from(["fit", "fit", "fit_shorter", "fit_longer", "fit_leading", "update", "evaluate"]))
     elif pair == "fh_fault":
         c["where"] = draw(st.sampled_from(["constructor", "fit", "predict", "splitter", "tts"]))
         c["forecaster"] = draw(st.sampled_from(sorted(FORECASTERS)))
